@@ -85,7 +85,7 @@ func (m *FixPeriodPlanner) Process(ctx *shared.PlannerContext,
 				idxFrom := ((entry.TimestampNS/duration)*duration - _from) / step
 				idxTo := ((entry.TimestampNS/duration+1)*duration - _from) / step
 
-				if idxTo < 0 || idxFrom >= int64(len(values)) {
+				if idxTo < 0 || idxFrom >= int64(len(values)) || idxFrom > idxTo {
 					continue
 				}
 				if idxFrom < 0 {
